@@ -162,7 +162,16 @@ class Detector:
     @photon.setter
     def photon(self, obj: Photon) -> None:
         """Set the photon information for the detector."""
-        self.photon._array = obj._array
+        if obj is self._photon:
+            # Nothing to do (e.g. after an in-place operation 'detector.photon += ...')
+            return
+
+        if obj._array is None:
+            self.photon.empty()
+        elif isinstance(obj._array, np.ndarray):
+            self.photon.array = obj._array
+        else:
+            self.photon.array_3d = obj._array
 
     @property
     def scene(self) -> Scene:
